@@ -400,7 +400,14 @@ pub fn rand_params(rng: &mut Rng, grid: bool) -> kp::Params {
         let skip = |rng: &mut Rng| common::Glue {
             width: Scaled(rng.range_i32(0, 10 * PT / unit) * unit),
             stretch: Scaled(if rng.coin() { 0 } else { rng.range_i32(0, 20 * PT / unit) * unit }),
-            stretch_order: if rng.chance(1, 5) { GlueOrder::Fil } else { GlueOrder::Normal },
+            // every order of infinity: \leftskip/\rightskip are added to each line's totals
+            // order by order (TeX.2021.827), together with whatever the line itself contains
+            stretch_order: match rng.below(10) {
+                0 | 1 => GlueOrder::Fil,
+                2 => GlueOrder::Fill,
+                3 => GlueOrder::Filll,
+                _ => GlueOrder::Normal,
+            },
             shrink: Scaled(if rng.coin() { 0 } else { rng.range_i32(0, 2 * PT / unit) * unit }),
             shrink_order: GlueOrder::Normal,
         };
